@@ -135,7 +135,12 @@ def exc_site(exc: BaseException) -> str:
 
 
 def exc_tag(exc: BaseException) -> str:
-    return f"{type(exc).__name__}@{exc_site(exc)}"
+    """ExceptionType(message class)@innermost physt function - identifies a failing call site."""
+    import re
+
+    msg = re.sub(r"[0-9]+(\.[0-9]+)?(e[+-]?[0-9]+)?", "#", str(exc))
+    msg = re.sub(r"\s+", " ", msg)[:48].strip()
+    return f"{type(exc).__name__}({msg})@{exc_site(exc)}"
 
 
 def attempt(fn, *args, **kwargs):
